@@ -931,7 +931,7 @@ func errClassY(err error) string {
 }
 
 func checkC13(c *ev.Ctx) {
-	c.Rule("yubiagent.NewClient through the dial seam; the peer runs the real ServeAgent synchronously per request over (i) a recording YubiAgent with scripted results and (ii) the real server with a fake yubico-piv-tool. Every operation alone: List (0..3 keys, comments '', ascii, UTF-8, 300 bytes), SignWithFlags (3 key types x data {0,1,64,65536} x flags {0,2,4,6}; certificate keys of 3 types x {ordinary, 7 KiB} certificate x data {0,65535,65536}), Add (3 key types x cert x lifetime {0,1,2^32-1} x confirm), Remove, RemoveAll, Lock/Unlock (5 passphrases), Signers (and signing through the signer objects, plain and with each RSA algorithm), AddHardCert (client and legacy encoding, 4 comments, certificates and plain keys of 3 key types), Wait (6 codes), slot operations (slot names, 2 certificate sizes), raw Forward (3 bodies x 4 replies up to 70 KB), Extension, smart-card requests, scripted failures with 5 error texts; transport failures: the response of each of 16 operations cut after {0, 2, 4 bytes, half the body, all but the last byte} and the stream ended (the call must return an error); held results (6 value-returning operations x 16 following operations: the kept bytes must not change); every ordered pair over a 30-operation generating set; a declared side pass with two goroutines on ONE client (7 pairs x 4 repetitions: one operation held in the served agent while the other is issued; each caller gets its own result) and with two connections reading different slots while the first read is held inside the PIV tool; PIV tool outputs (well-formed status, 'Slot' alone, 'Slot 9' (6 chars), 'Slot 9a' (7), 'Slot9a:', CRLF, empty, 1 MiB, exit status {1,2,255} with and without text on standard error (up to 70 KB), PEM/garbage for read/attest) in local and remote mode; after every tool run the server holds no lock and a following slot operation completes. non-trivial = operation sequence whose arguments and results were compared; distinct by sequence")
+	c.Rule("yubiagent.NewClient through the dial seam; the peer runs the real ServeAgent synchronously per request over (i) a recording YubiAgent with scripted results and (ii) the real server with a fake yubico-piv-tool. Every operation alone: List (0..3 keys, comments '', ascii, UTF-8, 300 bytes), SignWithFlags (3 key types x data {0,1,64,65536} x flags {0,2,4,6}; certificate keys of 3 types x {ordinary, 7 KiB} certificate x data {0,65535,65536}), Add (3 key types x cert x lifetime {0,1,2^32-1} x confirm), Remove, RemoveAll, Lock/Unlock (5 passphrases), Signers (and signing through the signer objects, plain and with each RSA algorithm), AddHardCert (client and legacy encoding, 4 comments, certificates and plain keys of 3 key types), Wait (6 codes), slot operations (slot names, 2 certificate sizes), raw Forward (3 bodies x 4 replies up to 70 KB; and requests / replies of EVERY length 1..3000, signatures over data of every length 1280..1420), Extension, smart-card requests, scripted failures with 5 error texts; transport failures: the response of each of 16 operations cut after {0, 2, 4 bytes, half the body, all but the last byte} and the stream ended (the call must return an error); held results (6 value-returning operations x 16 following operations: the kept bytes must not change); every ordered pair over a 30-operation generating set; a declared side pass with two goroutines on ONE client (7 pairs x 4 repetitions: one operation held in the served agent while the other is issued; each caller gets its own result) and with two connections reading different slots while the first read is held inside the PIV tool; PIV tool outputs (well-formed status, 'Slot' alone, 'Slot 9' (6 chars), 'Slot 9a' (7), 'Slot9a:', CRLF, empty, 1 MiB, exit status {1,2,255} with and without text on standard error (up to 70 KB), PEM/garbage for read/attest) in local and remote mode; after every tool run the server holds no lock and a following slot operation completes. non-trivial = operation sequence whose arguments and results were compared; distinct by sequence")
 	c.Assume("error texts exactly 'SUCCESS' / '' and extension payloads that are empty or start with byte 5/28 are in-band protocol artefacts, excluded from the alphabet", "private keys are compared through their public keys")
 	ops := map[string]c13Op{}
 	list := c13StubOps()
@@ -972,6 +972,7 @@ func checkC13(c *ev.Ctx) {
 		}
 	}
 	c.Sample(c13Case{CutOp: "Forward", CutClass: "half-body"})
+	c13LengthSweep(c)
 	c13Concurrent(c)
 	c13PivConcurrent(c)
 	// held results: every value-returning operation followed by every operation, the caller keeping the first result
